@@ -134,12 +134,14 @@ struct ClientResult {
 	std::string token, got;
 };
 
-static int connect_to(bool unix_, int port, const std::string& path)
+static int connect_to(bool unix_, int port, const std::string& path, bool free_fd0 = false)
 {
 	// blocking connect with a 10 s send timeout (it also bounds connect() for both families), non-blocking afterwards
 	int fd = socket(unix_ ? AF_UNIX : AF_INET, SOCK_STREAM, 0);
 	if (fd < 0)
 		return -1;
+	if (free_fd0)
+		close(0); // descriptor 0 is free from here on: the server's accept() for this connection receives it
 	timeval tv = {10, 0};
 	setsockopt(fd, SOL_SOCKET, SO_SNDTIMEO, &tv, sizeof tv);
 	int r;
@@ -167,11 +169,11 @@ static int connect_to(bool unix_, int port, const std::string& path)
 }
 
 // mode: 0 send token, read echo, wait for EOF; 1 send token then close without reading; 2 connect and close at once
-static void client_main(ClientResult* res, bool unix_, int port, std::string path, int mode, int pre_delay_us)
+static void client_main(ClientResult* res, bool unix_, int port, std::string path, int mode, int pre_delay_us, bool free_fd0 = false)
 {
 	if (pre_delay_us)
 		usleep(pre_delay_us);
-	int fd = connect_to(unix_, port, path);
+	int fd = connect_to(unix_, port, path, free_fd0);
 	if (fd < 0)
 		return;
 	res->connected = true;
@@ -244,6 +246,7 @@ struct Hist {
 	bool start_nonblocking = true;
 	int spin_ms = 0;            // busy delay injected at the loop-stop / finished-flag points
 	bool destroy_at_once = false; // destroy the server as soon as stop(true) has returned
+	bool stdin_closed = false;      // the probe connections are accepted while descriptor 0 is free
 	bool failed_bind_first = false; // a bind() to a port somebody else is listening on precedes the real binds
 	int fdorder = 0;              // two endpoints: bit0 the endpoint bound second gets the LOWER descriptor, bit1 the Unix path is bound first
 };
@@ -327,7 +330,7 @@ static void run_history(const Hist& h)
 			int pre = h.pattern == 1 ? (int)((i * 131) % 2000) : 0;
 			res[i].ux = u;
 			res[i].mode = mode;
-			ths.emplace_back(client_main, &res[i], u, port, path, mode, pre);
+			ths.emplace_back(client_main, &res[i], u, port, path, mode, pre, false);
 		}
 	};
 	// phase 1: clients that all finish before the stop is issued
@@ -381,7 +384,19 @@ static void run_history(const Hist& h)
 			continue;
 		probed[ep] = true;
 		probe[ep].token = vf::str("probe", ep, "-", h.jseed % 100000);
-		client_main(&probe[ep], ep == 1, port, path, 0, 0);
+		if (h.stdin_closed) {
+			// a process that has closed its standard input (a daemon): the accepted connection is given descriptor 0; it is served and
+			// closed like any other (the probe must see its echo and then end of stream)
+			int saved0 = dup(0);
+			client_main(&probe[ep], ep == 1, port, path, 0, 0, true);
+			if (saved0 >= 0) {
+				dup2(saved0, 0);
+				close(saved0);
+			}
+			vf::stats().cls("probe_connection_accepted_on_descriptor_0");
+		}
+		else
+			client_main(&probe[ep], ep == 1, port, path, 0, 0);
 	}
 	// phase 2: clients in flight while stop(true) runs in its own thread
 	std::vector<ClientResult> r2;
@@ -593,6 +608,73 @@ static void run_history(const Hist& h)
 		VF_FAIL(err);
 }
 
+
+// A long life: N connections one after the other to a concurrent server on a Unix path (N defaults to more than the number of
+// thread stacks the process could keep mapped if finished handler threads were never released: vm.max_map_count / 2 + 3000).
+// Every connection must be served (echo) and closed (end of stream); then stop(true) and destruction as usual.
+static void run_long(long n)
+{
+	vf::die_on_sigpipe();
+	long maxmap = 65530;
+	if (FILE* f = fopen("/proc/sys/vm/max_map_count", "r")) {
+		if (fscanf(f, "%ld", &maxmap) != 1)
+			maxmap = 65530;
+		fclose(f);
+	}
+	long total = n > 0 ? n : maxmap / 2 + 3000;
+	if (total > 120000)
+		total = 120000;
+	Rec* rec = new Rec;
+	Srv* srv = new Srv(rec, 0);
+	std::string path = tmpdir() + "/long" + std::to_string(g_hist_no++) + ".sock";
+	unlink(path.c_str());
+	VF_CHECK(srv->bindPath(String(path.c_str())), "infrastructure: cannot bind unix path ", path);
+	g_jitter = 0;
+	srv->start(true);
+	std::string err;
+	for (long i = 0; i < total && err.empty(); i++) {
+		ClientResult c;
+		c.token = vf::str("L", i);
+		client_main(&c, true, 0, path, 0, 0);
+		if (!c.connected)
+			err = vf::str("connection ", i + 1, " of ", total, " (one after the other, all earlier ones served and closed): connect failed");
+		else if (!c.echoed)
+			err = vf::str("connection ", i + 1, " of ", total, " (one after the other): not served, got ", vf::show(c.got));
+		else if (!c.eof)
+			err = vf::str("connection ", i + 1, " of ", total, " (one after the other): not closed after serve() returned");
+	}
+	std::atomic<bool> stop_done{false};
+	std::thread stopper([&]() {
+		srv->stop(true);
+		stop_done = true;
+	});
+	double t0 = vf::now();
+	for (int k = 0; !stop_done && vf::now() - t0 < 60; k++) {
+		ClientResult p;
+		p.token = "poke";
+		client_main(&p, true, 0, path, 1, 0);
+		usleep(20000);
+	}
+	if (stop_done) {
+		stopper.join();
+		delete srv;
+		int entries = rec->entries;
+		delete rec;
+		if (err.empty() && entries < total)
+			err = vf::str(total, " connections were made, serve() was entered ", entries, " times");
+	}
+	else {
+		stopper.detach();
+		if (err.empty())
+			err = "stop(true) did not return within 60 s after a long series of connections";
+	}
+	unlink(path.c_str());
+	vf::stats().cls(total > maxmap / 2 ? "long.series_longer_than_map_limit/2" : "long.series_short");
+	vf::stats().cls("long.connections", total);
+	if (!err.empty())
+		VF_FAIL(err);
+}
+
 static Hist parse_hist(const vf::Op& o)
 {
 	Hist h;
@@ -611,20 +693,31 @@ static Hist parse_hist(const vf::Op& o)
 	h.fdorder = (int)(o.i(12, 0) & 3);
 	h.start_nonblocking = !(o.i(13, 0) & 1);
 	h.failed_bind_first = (o.i(14, 0) & 1) != 0;
+	h.stdin_closed = (o.i(15, 0) & 1) != 0;
 	return h;
 }
 
 void vf_run_case(const std::string& part, const vf::Case& c)
 {
-	for (auto& o : c.ops)
+	for (auto& o : c.ops) {
 		if (o.name == "hist")
 			run_history(parse_hist(o));
+		else if (o.name == "long")
+			run_long((long)o.i(0));
+	}
 }
 
 void vf_search(const vf::Args& a)
 {
 	using namespace rc;
 	g_jit_us = 400;
+	{
+		// one long series (worker 0: beyond the mapping limit; two other workers: short ones)
+		vf::Case c;
+		c.add(vf::Op("long", {a.worker == 0 ? 0 : 400}));
+		if (a.worker < 3 && vf::runner().run("long", c))
+			vf::stats().nt(vf::fnv(vf::serialize(c)) + a.worker);
+	}
 	auto g = gen::map(gen::tuple(gen::tuple(vf::irange<int>(0, 3), vf::irange<int>(0, 1), gen::weightedOneOf<int>({{5, vf::irange<int>(0, 12)}, {2, vf::irange<int>(13, 60)}, {1, vf::irange<int>(61, 200)}}),
 	                                        gen::weightedOneOf<int>({{3, vf::irange<int>(0, 8)}, {2, vf::irange<int>(9, 40)}})),
 	                             gen::tuple(vf::irange<int>(0, 1), gen::element(0, 0, 10, 30, 60), gen::oneOf(gen::just(0), vf::irange<int>(0, 3000)),
@@ -634,7 +727,7 @@ void vf_search(const vf::Args& a)
 		                  auto& x = std::get<0>(t);
 		                  auto& y = std::get<1>(t);
 		                  vf::Case c;
-		                  c.add(vf::Op("hist", {std::get<0>(x), std::get<1>(x), std::get<2>(x), std::get<3>(x), std::get<0>(y), std::get<1>(y), std::get<2>(y), std::get<3>(y), std::get<4>(y), std::get<5>(y), std::get<2>(t).first, std::get<2>(t).first ? 1 : std::get<2>(t).second, (std::get<5>(y) / 7) % 4, (std::get<5>(y) / 29) % 4 == 0 ? 1 : 0, (std::get<5>(y) / 113) % 3 == 0 ? 1 : 0}));
+		                  c.add(vf::Op("hist", {std::get<0>(x), std::get<1>(x), std::get<2>(x), std::get<3>(x), std::get<0>(y), std::get<1>(y), std::get<2>(y), std::get<3>(y), std::get<4>(y), std::get<5>(y), std::get<2>(t).first, std::get<2>(t).first ? 1 : std::get<2>(t).second, (std::get<5>(y) / 7) % 4, (std::get<5>(y) / 29) % 4 == 0 ? 1 : 0, (std::get<5>(y) / 113) % 3 == 0 ? 1 : 0, (std::get<5>(y) / 337) % 4 == 0 ? 1 : 0}));
 		                  return c;
 	                  });
 	vf::check_cases("history", a.n(12, 200), 100, g, [](const vf::Case& c) {
@@ -651,6 +744,6 @@ void vf_search(const vf::Args& a)
 			vf::stats().cls("spin_delay_at_loop_stop_and_thread_entry+destroy_at_once");
 		else if (o.i(11) & 1)
 			vf::stats().cls("destroy_at_once");
-		vf::stats().sample("hist kind seq n_before n_inflight pattern early% stop_delay_us poke serve_delay_us jitter_seed spin_ms destroy_at_once fd_order blocking_start failed_bind_first: " + vf::serialize(c), 4);
+		vf::stats().sample("hist kind seq n_before n_inflight pattern early% stop_delay_us poke serve_delay_us jitter_seed spin_ms destroy_at_once fd_order blocking_start failed_bind_first stdin_closed: " + vf::serialize(c), 4);
 	});
 }
